@@ -69,6 +69,8 @@ def check(run):
         run.rules.pop(x, None)
     run.assumptions += ["v-table pointer acquisition (Policy::dynamic_vptr, virtual_ptr::_vptr) is an opaque leaf here; its content is decided by C09 / C15",
                         "the tables themselves (which definition sits in which cell) are values computed by update: not decided"]
+    from .. import crules as _cr
+    _cr.facet_rules(run, "C01-facets")
     return run.finish(level="other", explanation="Symbolic summary (LLVM IR after mem2reg, library calls substituted) of the function pointer that "
                       "method::operator() calls and that resolve() returns, for every method of the witness matrix, compared structurally "
                       "(modulo commutativity) with the documented walk. Decides the call-time half of dispatch; not the table contents.",
